@@ -98,16 +98,16 @@ func (c *Client) guard(r *Res, f func()) {
 			r.Panic = fmt.Sprint(p)
 			r.OK = false
 			r.Code = "PANIC"
-			c.S.Violate("C14.panic", "handler", "handler panicked: %v\n%s", p, panicFrames())
+			c.S.Violate("C14.panic", "handler", "handler panicked: %v\n%s", p, PanicFrames())
 		}
 		r.Ret = c.S.Now()
 	}()
 	f()
 }
 
-// panicFrames returns the frames of the panicking stack that belong to the
+// PanicFrames returns the frames of the panicking stack that belong to the
 // code under test (called from a deferred function).
-func panicFrames() string {
+func PanicFrames() string {
 	buf := make([]byte, 32<<10)
 	n := runtime.Stack(buf, false)
 	var out []string
